@@ -1,6 +1,8 @@
 """C02 - import builds a spine tree that mirrors the text cell for cell (tree vs spine-path model)."""
 from __future__ import annotations
 
+import re
+
 from ..common import Ctx, rng_for, subseed
 from ..model import spinepaths as SP
 from ..gen import layouts as L
@@ -68,6 +70,9 @@ def render(lines):
     return '\n'.join(out) + '\n'
 
 
+RE_BBOX = re.compile(r'^\*xywh-(\d+):(\d+),(\d+),(\d+),(\d+)$')
+
+
 def compare_tree(ctx: Ctx, case, lines, types, doc, expected_enc=None):
     """Tree vs model.  expected_enc(line, col, text) -> set of acceptable encodings (default: verbatim)."""
     infos = SP.track(lines)
@@ -115,6 +120,16 @@ def compare_tree(ctx: Ctx, case, lines, types, doc, expected_enc=None):
                 viol('cell-text', f'line {li + 1} col {col}: token encoding '
                      f'{getattr(node.token, "encoding", None)!r}, cell text {text!r}')
                 ok = False
+            m_bb = RE_BBOX.match(text)
+            if m_bb and type(node.token).__name__ == 'BoundingBoxToken':
+                # the fields parsed from the cell are the cell's own numbers, whatever other boxes the page has
+                ctx.mon('bounding_box_tokens_compared')
+                pg, bx, by, bw, bh = (int(g) for g in m_bb.groups())
+                bb = node.token.bounding_box
+                got_bb = (int(node.token.page_number), bb.from_x, bb.from_y, bb.to_x, bb.to_y)
+                if got_bb != (pg, bx, by, bx + bw, by + bh):
+                    viol('cell-derived-fields', f'line {li + 1} col {col}: bounding-box token of {text!r} holds page/box {got_bb}')
+                    ok = False
             if info.kind == 'header':
                 if node.header_node is not node or getattr(node.token, 'spine_id', None) != col:
                     viol('header-identity', f'header col {col}: header_node/spine_id wrong '
